@@ -123,6 +123,12 @@ func ext4Scenarios(cfg fatCfg, oracle string, depth int, quick bool) []*fatScen 
 		{Kind: "chtimes", Path: "a", Len: "1"}, {Kind: "chtimes", Path: "a", Len: "2147483648"}, {Kind: "chtimes", Path: "d", Len: "1700000000"}, {Kind: "chtimes", Path: "d/b", Len: "4294967296"},
 		{Kind: "remove", Path: "a"}, {Kind: "reopen"}}
 	out = append(out, &fatScen{Name: "attrs", Cfg: cfg, Letters: la, Depth: depth, Oracle: oracle})
+	// names: name lengths around the 8-bit record arithmetic (8+247 = 255, 8+248 = 256) and the 255-byte limit
+	nm := func(c string, n int) string { return strings.Repeat(c, n) }
+	ln := []fsOp{{Kind: "create", Path: nm("a", 247)}, {Kind: "create", Path: nm("b", 248)}, W(nm("c", 255), "0", "c+1"), {Kind: "mkdir", Path: nm("d", 255)},
+		{Kind: "create", Path: nm("d", 255) + "/" + nm("e", 250)}, {Kind: "symlink", Path: nm("l", 252), Path2: nm("c", 255)},
+		{Kind: "remove", Path: nm("b", 248)}, {Kind: "remove", Path: nm("c", 255)}, {Kind: "create", Path: "short"}, {Kind: "reopen"}}
+	out = append(out, &fatScen{Name: "names", Cfg: cfg, Letters: ln, Depth: depth, Oracle: oracle})
 	return out
 }
 
